@@ -2,6 +2,8 @@ package main
 
 import (
 	"fmt"
+	"io"
+	"strings"
 	"sync"
 	"sync/atomic"
 	"time"
@@ -214,8 +216,84 @@ func runC11Conc(c *Ctx, r *Rng, rounds int) {
 	c.Cov.Schedules++
 }
 
+// runC11SubRace: two threads derive the SAME new subscope of a test scope at the same time (parked before the read lock
+// and before the write lock of the registry), record on it and close it.  "Test scopes and their metrics survive Close
+// of a subscope and remain visible in later snapshots": the final snapshot shows what both recorded, whatever the
+// schedule.  All schedules for two threads.
+func runC11SubRace(c *Ctx, ch Chooser, tagged bool) string {
+	ts := tally.NewTestScope("p", nil)
+	obtain := func() tally.Scope {
+		if tagged {
+			return ts.Tagged(map[string]string{"k": "v"})
+		}
+		return ts.SubScope("x")
+	}
+	s := NewSched(func(l string) bool {
+		return l == "registry.subscope.pre-rlock" || l == "registry.subscope.pre-lock" || l == "registry.remove.pre-lock"
+	})
+	var thrs []*Thr
+	for i := 0; i < 2; i++ {
+		i := i
+		thrs = append(thrs, s.Spawn(fmt.Sprintf("T%d", i), func() {
+			sc := obtain()
+			sc.Counter("hits").Inc(int64(1 + i))
+			sc.Timer("t").Record(time.Duration(1 + i))
+			sc.(io.Closer).Close()
+		}))
+	}
+	var trace []string
+	for {
+		var cand []*Thr
+		for _, t := range thrs {
+			if !t.Done {
+				cand = append(cand, t)
+			}
+		}
+		if len(cand) == 0 {
+			break
+		}
+		t := cand[ch.Pick(len(cand))]
+		to, _ := s.Step(t)
+		trace = append(trace, t.Name+"@"+to)
+		if to == "blocked" || to == "panic" {
+			c.Cov.Fail(Failure{Kind: "crash", Clause: to, Signature: "c11conc-subscope-race", Line: strings.Join(trace, " "), Reply: fmt.Sprint(t.Pan)})
+			s.Finish()
+			return strings.Join(trace, " ")
+		}
+	}
+	s.Finish()
+	line := fmt.Sprintf("test scope, tagged=%v, two threads derive the same new subscope, record (hits +1 / +2, one timer value each) and close it; schedule: %s", tagged, strings.Join(trace, " "))
+	snap := ts.Snapshot()
+	total, nt := int64(0), 0
+	for _, cs := range snap.Counters() {
+		if strings.HasSuffix(cs.Name(), "hits") {
+			total += cs.Value()
+		}
+	}
+	for _, tm := range snap.Timers() {
+		nt += len(tm.Values())
+	}
+	if total != 3 || nt != 2 {
+		c.Cov.Fail(Failure{Kind: "violated", Clause: "test-scope-survives-close", Signature: "c11conc-subscope-race", Line: line,
+			Reply: fmt.Sprintf("the final snapshot shows hits=%d (3 recorded) and %d timer values (2 recorded)", total, nt)})
+	}
+	return line
+}
+
 func suiteC11Conc(c *Ctx) {
-	c.Cov.Rule = "free-running: 4 recorder goroutines (own counter, gauge, timer, value histogram each on one of four scopes of a test scope tree, one shared counter, a first use of a fresh name and of a fresh subscope every 4th round) against a goroutine that takes snapshots in a loop, writes into every snapshot, and judges each: counters between the previous snapshot's value and what had been added, timer values an in-order prefix, histogram totals bounded; final snapshot exact; a process killed by the runtime (concurrent map access) is reported by check.py as a violation; nontrivial = at least two snapshots were taken while recording went on"
+	for _, tagged := range []bool{false, true} {
+		d := &dfsChooser{}
+		for n := 0; n < 5000; n++ {
+			d.depth = 0
+			line := runC11SubRace(c, d, tagged)
+			c.Cov.Eval(line, strings.Count(line, "@registry.subscope.pre-lock") >= 2)
+			c.Cov.Schedules++
+			if !d.Next() {
+				break
+			}
+		}
+	}
+	c.Cov.Rule = "all schedules of two threads deriving the same new subscope of a test scope (parked before the registry's read and write locks), recording and closing it: the final snapshot shows everything recorded; then free-running: 4 recorder goroutines (own counter, gauge, timer, value histogram each on one of four scopes of a test scope tree, one shared counter, a first use of a fresh name and of a fresh subscope every 4th round) against a goroutine that takes snapshots in a loop, writes into every snapshot, and judges each: counters between the previous snapshot's value and what had been added, timer values an in-order prefix, histogram totals bounded; final snapshot exact; a process killed by the runtime (concurrent map access) is reported by check.py as a violation; nontrivial = at least two snapshots were taken while recording went on"
 	n := c.N(12, 120)
 	for i := 0; i < n; i++ {
 		runC11Conc(c, c.Rng.Fork(), 300)
